@@ -75,6 +75,7 @@ def parseOp? (fs : List String) : Option Op :=
       pure (.hmacVerify (← h.toNat?) (← parseVMut? vm) (← parseBMut? bm) (← hexField? m))
   | ["failput", k] => do pure (.failPut (← k.toNat?))
   | ["rawcfg", d, e] => do pure (.rawConfig (← d.toNat?) (← e.toNat?))
+  | ["restoreraw", b, f] => do pure (.restoreRaw (← b.toNat?) (← parseBool? f))
   | _ => none
 
 def stepLine (st : St) (fs : List String) : St × String :=
